@@ -29,11 +29,11 @@ import threading
 _WT_LOCK = threading.Lock()  # concurrent `git worktree add/remove/prune` race on .git/worktrees
 
 
-def make_wt():
+def make_wt(base="HEAD"):
     wt = tempfile.mkdtemp(prefix="nssmon_wt.", dir="/tmp")
     os.rmdir(wt)
     with _WT_LOCK:
-        r = sh(f"git -C /repo worktree add --detach {wt} HEAD")
+        r = sh(f"git -C /repo worktree add --detach {wt} {base}")
     if r.returncode:
         raise RuntimeError(r.stderr)
     shutil.copy("/repo/src/nuspacesim/_version.py", f"{wt}/src/nuspacesim/_version.py")
@@ -51,8 +51,12 @@ def drop_wt(wt):
 
 def run_one(m, tier, tests):
     t0 = time.time()
-    wt = make_wt()
+    # a seeded change whose mechanism was later repaired in /repo ("fix:" commit) is replayed
+    # against the commit it was written for (meta.json: base_commit)
+    wt = make_wt(m.get("base") or "HEAD")
     out = {"id": m["id"], "property": m["property"]}
+    if m.get("base"):
+        out["base_commit"] = m["base"]
     try:
         if "patch" in m:
             r = sh(f"git -C {wt} apply {m['patch']}")
@@ -74,7 +78,12 @@ def run_one(m, tier, tests):
         if m.get("demo"):
             r = sh(f"cd {wt} && PYTHONPATH={wt}/src timeout 900 /venv/bin/python {m['demo']} >/dev/null 2>&1; echo $?")
             out["demo_exit_with_change"] = int(r.stdout.strip() or -1)
-            r = sh(f"cd /repo && PYTHONPATH=/repo/src timeout 900 /venv/bin/python {m['demo']} >/dev/null 2>&1; echo $?")
+            if m.get("base"):
+                sh(f"git -C {wt} apply -R {m['patch']}")
+                r = sh(f"cd {wt} && PYTHONPATH={wt}/src timeout 900 /venv/bin/python {m['demo']} >/dev/null 2>&1; echo $?")
+                sh(f"git -C {wt} apply {m['patch']}")
+            else:
+                r = sh(f"cd /repo && PYTHONPATH=/repo/src timeout 900 /venv/bin/python {m['demo']} >/dev/null 2>&1; echo $?")
             out["demo_exit_clean"] = int(r.stdout.strip() or -1)
         checks = m.get("checks") or [m["property"]]
         out["results"] = {}
@@ -114,7 +123,7 @@ def main():
             if a.wave is not None and meta.get("wave") != a.wave:
                 continue
             demo = os.path.join(sd, name, "demo.py")
-            muts.append({"id": name, "property": meta["property"], "patch": os.path.join(sd, name, "patch.diff"), "checks": meta.get("checks"), "tier": meta.get("tier_needed", a.tier), "demo": demo if os.path.exists(demo) else None})
+            muts.append({"id": name, "property": meta["property"], "patch": os.path.join(sd, name, "patch.diff"), "checks": meta.get("checks"), "tier": meta.get("tier_needed", a.tier), "demo": demo if os.path.exists(demo) else None, "base": meta.get("base_commit")})
     else:
         muts = json.load(open(os.path.join(ROOT, "selftest", "mutants.json")))
     if a.only:
